@@ -11,13 +11,13 @@ Proof. induction i; destruct l; simpl; auto. now rewrite IHi. Qed.
 Lemma upd_comm {A} : forall i j (v w : A) l, i <> j -> upd i v (upd j w l) = upd j w (upd i v l).
 Proof.
   induction i; destruct j; destruct l; simpl; intros; auto; try lia.
-  f_equal. apply IHi. lia.
+  all: try (f_equal; apply IHi; lia).
 Qed.
 
 Lemma nth_upd_other {A} : forall i j (v d : A) l, i <> j -> nth i (upd j v l) d = nth i l d.
 Proof.
   induction i; destruct j; destruct l; simpl; intros; auto; try lia.
-  apply IHi. lia.
+  all: try (apply IHi; lia).
 Qed.
 
 Lemma upd_length {A} : forall i (v : A) l, length (upd i v l) = length l.
@@ -38,13 +38,22 @@ Proof.
   - f_equal. apply IHg. lia.
 Qed.
 
+Lemma nth_upd_same {A} : forall g (x d : A) l, g < length l -> nth g (upd g x l) d = x.
+Proof. induction g; destruct l; simpl; intros; try lia; auto. apply IHg. lia. Qed.
+
+Lemma upd_oob {A} : forall g (x : A) l, length l <= g -> upd g x l = l.
+Proof. induction g; destruct l; simpl; intros; try lia; auto. f_equal. apply IHg. lia. Qed.
+
 Lemma cget_cset_other : forall g i g' i' v c, (g <> g' \/ i <> i') ->
   cget g i (cset g' i' v c) = cget g i c.
 Proof.
-  unfold cget, cset. induction g; destruct g'; destruct c; simpl; intros; auto.
-  - destruct H; [lia|]. now apply nth_upd_other.
-  - destruct g; reflexivity.
-  - apply IHg. lia.
+  unfold cget, cset. intros.
+  destruct (Nat.eq_dec g g') as [->|Hg].
+  - destruct H; [lia|].
+    destruct (Nat.lt_ge_cases g' (length c)).
+    + rewrite nth_upd_same by auto. now apply nth_upd_other.
+    + now rewrite upd_oob.
+  - now rewrite nth_upd_other.
 Qed.
 
 Lemma row_cset_other : forall g g' i' v c, g <> g' -> nth g (cset g' i' v c) [] = nth g c [].
@@ -167,7 +176,6 @@ Proof.
     specialize (Hf a p e pos').
     destruct (f a p pos') as [b pos'' w2|w2|y] eqn:E2.
     + destruct Hf as (Hf & Hl2 & Hp2). rewrite Hf. repeat split; try lia.
-      intros. apply Hl2. destruct (Nat.le_gt_cases pos' (length p)); auto. lia.
     + destruct (f a (p ++ e) pos') as [b pos'' w2'|w2'|y]; auto;
         destruct Hf as [d Hd]; subst; exists d; now rewrite app_assoc.
     + now rewrite Hf.
@@ -242,7 +250,7 @@ Section Routine.
     pose proof (St p) as S0.
     destruct (m p 0) as [[c k0] pos ws|ws|x] eqn:E; try discriminate.
     inversion H; subst. split.
-    - destruct (S0 [] 0) as (_ & Hl & _). rewrite E in *. apply Hl. lia.
+    - pose proof (S0 [] 0) as S1. rewrite E in S1. destruct S1 as (_ & Hl & _). apply Hl. lia.
     - intros e. specialize (S0 e 0). rewrite E in S0. destruct S0 as (S0 & _). now rewrite S0.
   Qed.
 
